@@ -274,9 +274,38 @@ func session1(seed int64, i int) (ivs []interval, frames []rig.Frame, logged boo
 	at(5800 * time.Millisecond)
 	logged = l.S.IsLogged()
 	if variant == "stop" || variant == "relogon" {
+		// the peer answers the Logout that Stop sends as soon as it sees it (so that the answer is dispatched while
+		// Stop may still be running)
+		fr0, _ := l.Frames()
+		n0 := 0
+		for _, x := range fr0 {
+			if x.Type == "5" {
+				n0++
+			}
+		}
+		answered := make(chan struct{})
+		go func() {
+			defer close(answered)
+			deadline := time.Now().Add(300 * time.Millisecond)
+			for time.Now().Before(deadline) {
+				fr, _ := l.Frames()
+				n := 0
+				for _, x := range fr {
+					if x.Type == "5" {
+						n++
+					}
+				}
+				if n > n0 {
+					l.Conn.Feed(l.Peer.Logout())
+					return
+				}
+				time.Sleep(100 * time.Microsecond)
+			}
+		}()
 		t0 := time.Now()
 		_ = l.S.Stop()
 		rec("stop", t0, time.Now())
+		<-answered
 		time.Sleep(400 * time.Millisecond)
 	}
 	f.Shutdown()
